@@ -511,7 +511,7 @@ pub fn determinism(ctx: &Ctx, rep: &mut Report) {
             }));
         }
         let mut workers = vec![];
-        let rounds512 = ctx.sz(10, 40);
+        let rounds512 = ctx.sz(10, 6); // the thorough tier has seven times as many pool seeds
         for t in 0..6usize {
             // four threads on Falcon-512 (cheap: many executions), two on Falcon-1024
             let big = t >= 4;
